@@ -8,7 +8,9 @@ import (
 	"os"
 	"path/filepath"
 	"sort"
+	"sync"
 	"sync/atomic"
+	"time"
 
 	"github.com/akrennmair/updog"
 	"github.com/akrennmair/updog/internal/openfile"
@@ -24,6 +26,9 @@ type Writer struct {
 	out  *bbolt.DB
 	tmp  *bbolt.DB
 	tmpP string
+
+	rowsMu sync.Mutex
+	rows   int // AddRow calls so far (scales the Flush time limit)
 }
 
 func NewWriter(kind, path string) (*Writer, error) {
@@ -62,6 +67,9 @@ func NewWriter(kind, path string) (*Writer, error) {
 
 // AddRow calls the real writer; a panic of the code under test is reported as an error.
 func (w *Writer) AddRow(m map[string]string) (id uint32, err error) {
+	w.rowsMu.Lock()
+	w.rows++
+	w.rowsMu.Unlock()
 	if p := Safely(func() {
 		if w.big != nil {
 			id, err = w.big.AddRow(m)
@@ -77,10 +85,23 @@ func (w *Writer) AddRow(m map[string]string) (id uint32, err error) {
 // Flush writes the index and releases everything the writer holds; a panic of the code under
 // test is reported as an error.
 func (w *Writer) Flush() (err error) {
-	if p := Safely(func() { err = w.flush() }); p != nil {
-		return fmt.Errorf("panic in Flush: %s @ %s", p.Value, p.Stack)
+	// a Flush that never returns (e.g. a Close waiting for a leaked transaction) is reported as an error after a
+	// generous time limit; the stuck goroutine is left behind
+	done := make(chan error, 1)
+	go func() {
+		var ferr error
+		if p := Safely(func() { ferr = w.flush() }); p != nil {
+			ferr = fmt.Errorf("panic in Flush: %s @ %s", p.Value, p.Stack)
+		}
+		done <- ferr
+	}()
+	limit := 60*time.Second + time.Duration(w.rows/500)*time.Second
+	select {
+	case err = <-done:
+		return err
+	case <-time.After(limit):
+		return fmt.Errorf("Flush did not return within %v (hang)", limit)
 	}
-	return err
 }
 
 func (w *Writer) flush() error {
